@@ -54,6 +54,7 @@ REQUIRED_COUNTERS = [
 TIMEOUT = {"quick": 900, "thorough": 3600}
 
 FLOAT32_DECIDES = False   # float32 signal frames: observe-only (see ASSUMPTIONS); True makes them deciding
+FLOAT32_CLASSES = ("nice", "unlucky_decimal", "random", "negative", "integer")   # ranges float32 can resolve
 
 SHARDS = 16
 RANDOM_CASES = {"quick": 61 * 200, "thorough": 61 * 5000}
@@ -465,7 +466,7 @@ def run_models(rec, ctx, index, rng, nrng, bits, vmin, vmax, cls, kind, shape, v
             except Exception:  # noqa: BLE001
                 rec.count("refused_data_type_override")
         # float32 frames (observe-only unless FLOAT32_DECIDES)
-        if extras and 0.15 <= r < 0.25:
+        if extras and 0.15 <= r < 0.25 and cls in FLOAT32_CLASSES:
             with np.errstate(all="ignore"):
                 v32 = np.unique(vs[:ns_s].astype(np.float32))
             n32 = len(v32)
